@@ -1,6 +1,8 @@
 package gen
 
 import (
+	"strconv"
+
 	"pgregory.net/rapid"
 )
 
@@ -26,6 +28,7 @@ type ProgCfg struct {
 	LongStr    bool     // allow strings longer than a few characters
 	PlainStr   bool     // strings restricted to letters/spaces/punctuation without digits and newlines
 	NoFloat    bool
+	PShort     int // percent of compound expressions that are and/or (0 = default 15)
 	// statement kind weights: var, assignment, print, def, bind (bind only
 	// at toplevel and with Binds); zero value = defaults
 	WVar, WAsg, WPrint, WDef, WBind int
@@ -246,7 +249,11 @@ func (g *PG) typed(ty string, d int) *Expr {
 		return Pick(g.T, "numt", []string{"int", "float"})
 	}
 	// short circuit forms keep the type when both operands have it
-	if Chance(g.T, 15, "shortcircuit") {
+	ps := g.C.PShort
+	if ps == 0 {
+		ps = 15
+	}
+	if Chance(g.T, ps, "shortcircuit") {
 		k := Pick(g.T, "sc", []string{"and", "or"})
 		g.feat(k)
 		return &Expr{K: k, A: sub(ty), B: sub(ty)}
@@ -709,4 +716,116 @@ func (g *PG) OpenBlock(typ string) {
 func (g *PG) CloseBlock() {
 	g.scopes = g.scopes[:len(g.scopes)-1]
 	g.blocks = g.blocks[:len(g.blocks)-1]
+}
+
+// ---------- constant-pool collisions and limit families ----------
+
+// Walk calls f for every expression node of the program.
+func (p *Prog) Walk(f func(e *Expr)) {
+	var we func(e *Expr)
+	we = func(e *Expr) {
+		if e == nil {
+			return
+		}
+		f(e)
+		we(e.A)
+		we(e.B)
+	}
+	var ws func(b []*Stmt)
+	ws = func(b []*Stmt) {
+		for _, s := range b {
+			we(s.E)
+			ws(s.Body)
+		}
+	}
+	ws(p.Stmts)
+}
+
+// Defs lists all def statements.
+func (p *Prog) Defs() []*Stmt {
+	var out []*Stmt
+	var ws func(b []*Stmt)
+	ws = func(b []*Stmt) {
+		for _, s := range b {
+			if s.K == "def" {
+				out = append(out, s)
+				ws(s.Body)
+			}
+		}
+	}
+	ws(p.Stmts)
+	return out
+}
+
+// PlantCollisions makes constants of different kinds share a spelling: a
+// block name or a string literal that spells a number literal of the
+// program, an identifier, a block type, or the empty string. It returns
+// what it planted.
+func PlantCollisions(t *rapid.T, p *Prog) []string {
+	var texts []string
+	p.Walk(func(e *Expr) {
+		switch e.K {
+		case "int":
+			texts = append(texts, e.T)
+			if v, err := strconv.ParseInt(e.T, 0, 64); err == nil {
+				texts = append(texts, strconv.FormatInt(v, 10))
+			}
+		case "float":
+			texts = append(texts, e.T)
+			if v, err := strconv.ParseFloat(e.T, 64); err == nil {
+				texts = append(texts, strconv.FormatFloat(v, 'g', -1, 64), strconv.FormatFloat(v, 'f', -1, 64))
+			}
+		case "id", "asg":
+			texts = append(texts, e.T)
+		case "true", "false", "nil":
+			texts = append(texts, e.K)
+		}
+	})
+	defs := p.Defs()
+	for _, d := range defs {
+		texts = append(texts, d.Name)
+	}
+	texts = append(texts, "", "0", "1", "true")
+	var planted []string
+	n := Int(t, 1, 3, "ncollide")
+	for i := 0; i < n; i++ {
+		tx := Pick(t, "collidetext", texts)
+		if len(defs) > 0 && Bool(t, "asbname") {
+			d := Pick(t, "collidedef", defs)
+			d.HasBName, d.BNameLit = true, QuotePlain(tx)
+			planted = append(planted, "bname="+tx)
+		} else {
+			p.Stmts = append(p.Stmts, &Stmt{K: "print", E: &Expr{K: "str", T: QuotePlain(tx)}})
+			planted = append(planted, "str="+tx)
+		}
+	}
+	return planted
+}
+
+// JumpLimitExpr builds "X and/or (prefix+1+1+...)" whose right operand
+// compiles to prefixBytes+2n bytes of code, for probing the 16-bit jump
+// limit. prefix kinds: 0: "1" (1 byte), 1: "-1" (2), 2: "2" (2), 3: "-2" (3),
+// 4: "not 1" (2)
+func JumpLimitExpr(op string, prefix, n int) *Expr {
+	var e *Expr
+	switch prefix {
+	case 0:
+		e = &Expr{K: "int", T: "1"}
+	case 1:
+		e = &Expr{K: "neg", A: &Expr{K: "int", T: "1"}}
+	case 2:
+		e = &Expr{K: "int", T: "2"}
+	case 3:
+		e = &Expr{K: "neg", A: &Expr{K: "int", T: "2"}}
+	default:
+		e = &Expr{K: "neg", A: &Expr{K: "neg", A: &Expr{K: "int", T: "1"}}}
+	}
+	for i := 0; i < n; i++ {
+		e = &Expr{K: "bin", T: "+", A: e, B: &Expr{K: "int", T: "1"}}
+	}
+	left := &Expr{K: "false"}
+	if op == "or" {
+		left = &Expr{K: "true"}
+	}
+	return &Expr{K: op, A: left, B: e}
 }
